@@ -25,6 +25,7 @@ LEVEL_NOTE = MANIFEST["text"]
 class Hooks:
     Stop = Stop
     Break = loopcut.Break
+    with_inc = False
 
     def __init__(self, w, sensors, func=None):
         self.func = func
@@ -115,10 +116,16 @@ class Hooks:
             # increments batch (when increments are supplied)
             for b in self.batches:
                 lo, hi = b.a, b.b
-                ok = isinstance(lo, sched.NextAfter)
+                ok = b.kind == "loc" and isinstance(lo, sched.NextAfter)
                 c.prove("loop.batch.label_slice", z3.And(z3.BoolVal(ok), lo.a.v == w.Tt(idx0) if ok else z3.BoolVal(False),
-                                                          _z(hi).v == w.Tt(idx1)),
-                        "increments.loc[nextafter(time, .) : next_time] selects exactly the increments of (time, next_time]", concretize=w.concretize)
+                                                          _z(hi).v == w.Tt(idx1) if ok else z3.BoolVal(False)),
+                        "increments.loc[nextafter(time, .) : next_time] selects exactly the increments of (time, next_time] "
+                        "(selection by LABEL: the increments table has its own sampling; got a %s selection)" % b.kind, concretize=w.concretize)
+            if self.with_inc:
+                c.prove("loop.batch.one_per_propagation", z3.Or(z3.And(idx1 > idx0, z3.BoolVal(len(self.batches) == 1)),
+                                                                z3.And(idx1 == idx0, z3.BoolVal(len(self.batches) == 0))),
+                        "increments supplied: one batch is selected in every iteration that propagates, none otherwise (%d)" % len(self.batches),
+                        concretize=w.concretize)
         elif which == "exit":
             idx, mi = self._state(L)
             c.prove("exit.last_row_reached", idx == w.N - 1, "not (index + 1 < N) and Inv => index = N-1", concretize=w.concretize)
@@ -164,6 +171,7 @@ def scenario(py, code, mode, with_inc, equal_index=True):
     sensors = [sched.SensorA(w), sched.SensorB(w)][:n_s]
     hooks = Hooks(w, sensors, func=F.run_feedforward_filter)
     hooks.batches = []
+    hooks.with_inc = with_inc
     cap = sched.BunchCapture()
 
     class MS(sched.ModelStub):
@@ -186,6 +194,17 @@ def scenario(py, code, mode, with_inc, equal_index=True):
                     hooks.batches.append(b)
                     return b
             return L_()
+
+        @property
+        def iloc(self_):
+            class I_:
+                def __getitem__(self__, k):
+                    # the increments table has its own sampling: a POSITIONAL selection by trajectory row numbers is only
+                    # right when the two tables happen to be row-aligned, which the contract does not promise
+                    b = sched.IncBatch(w, getattr(k, "start", k), getattr(k, "stop", k), kind="iloc")
+                    hooks.batches.append(b)
+                    return b
+            return I_()
     ns = dict(F.__dict__)
     ns.update(__pvx=hooks, np=sched.ZNp(w), pd=OPAQUE, kalman=OPAQUE, transform=OPAQUE, earth=OPAQUE, Rotation=OPAQUE,
               util=cap, inertial_sensor=InertialNS, InsErrorModel=lambda wa=True: OPAQUE,
@@ -265,6 +284,10 @@ def run(ctx):
     helpers.interpolate_pva(ctx, py, "C10")
     helpers.numpy_contracts_standin(ctx, py, "C10")
     ctx.guard(_standin, ctx, py)
+
+    # frame of the modules under contract (no state kept between calls, arguments left alone): same analysis as C19
+    from props import C19 as _C19
+    ctx.guard(_C19.frame_obligations, ctx, py, "C10", {'filters'})
 
 
 def _replay(py, name, cex):
